@@ -174,6 +174,12 @@ func (o *observer) CreateAccount(a common.Address) {
 		mutation{kind: cellBalance, addr: a, prevBig: bal}, mutation{kind: cellCode, addr: a, prevH: ch},
 		mutation{kind: cellSuicided, addr: a, prevB: o.real.HasSuicided(a)})
 	wipes := false
+	if exists {
+		// the slots every contract of the fixed world starts with
+		for k := range presetSlots {
+			o.noteSlot(a, common.BigToHash(new(big.Int).SetUint64(k)))
+		}
+	}
 	for k := range o.slots[a] {
 		v := o.real.GetState(a, k)
 		o.mlog = append(o.mlog, mutation{kind: cellStorage, addr: a, key: k, prevH: v})
@@ -490,6 +496,13 @@ func (o *observer) resolve(f *frame, depth int, gasNow uint64, stack *vm.Stack) 
 			}
 		}
 	}
+	if gasNow <= f.gas0 && memFee(f.memWords) > f.gas0-gasNow {
+		// the forwarded gas has come back: what the frame really consumed must still cover its memory
+		o.violate("memory_exceeds_gas_paid", name, "after_callee_returned", fmt.Sprintf("frame holds %d words of memory (fee %d) having consumed only %d gas once %s returned", f.memWords, memFee(f.memWords), f.gas0-gasNow, name))
+	}
+	if gasNow > f.gas0 {
+		o.violate("gas_exceeds_given", name, "frame_gas_above_initial", fmt.Sprintf("frame started with %d gas, has %d after %s returned", f.gas0, gasNow, name))
+	}
 	// reach counters
 	if p.op != opCREATE {
 		var pre [20]byte
@@ -559,14 +572,15 @@ func (o *observer) CaptureState(env *vm.EVM, pc uint64, opc vm.OpCode, gas, cost
 	}
 	o.curOp = op
 	words := uint64(memory.Len()+31) / 32
-	if words > f.memWords {
+	grew := words > f.memWords
+	if grew {
 		f.memWords = words
 		o.memGrew = true
 	}
 	if err != nil {
 		// the instruction did not execute (stack, gas, validity, write protection): the frame ends
 		f.haveLast = false
-		if gas <= f.gas0 && memFee(words) > f.gas0-gas {
+		if grew && gas <= f.gas0 && memFee(words) > f.gas0-gas {
 			o.violate("memory_exceeds_gas_paid", opName(op), "", fmt.Sprintf("frame holds %d bytes of memory (fee %d) having consumed only %d gas", memory.Len(), memFee(words), f.gas0-gas))
 		}
 		if err.Error() == "evm: write protection" {
@@ -580,9 +594,7 @@ func (o *observer) CaptureState(env *vm.EVM, pc uint64, opc vm.OpCode, gas, cost
 		cost = gas
 	}
 	after := gas - cost
-	if gas > f.gas0 {
-		o.violate("gas_exceeds_given", opName(op), "frame_gas_above_initial", fmt.Sprintf("frame started with %d gas, has %d", f.gas0, gas))
-	} else if memFee(words) > f.gas0-after {
+	if grew && after <= f.gas0 && memFee(words) > f.gas0-after {
 		o.violate("memory_exceeds_gas_paid", opName(op), "", fmt.Sprintf("frame holds %d bytes of memory (fee %d) having consumed only %d gas", memory.Len(), memFee(words), f.gas0-after))
 	}
 	f.lastGasAfter, f.haveLast, f.lastOp, f.lastWasCall = after, true, op, false
